@@ -145,12 +145,9 @@ bus_dispatch_matches (BusTransaction *transaction,
   /* First, send the message to the addressed_recipient, if there is one. */
   if (addressed_recipient != NULL)
     {
-      if (!bus_context_check_security_policy (context, transaction,
-                                              sender, addressed_recipient,
-                                              addressed_recipient,
-                                              message, NULL, error))
-        return FALSE;
-
+      /* This has to come before the security policy check: for a method
+       * call that check records that the recipient owes the sender a
+       * reply, and a call we refuse here is never delivered. */
       if (dbus_message_contains_unix_fds (message) &&
           !dbus_connection_can_send_type (addressed_recipient,
                                           DBUS_TYPE_UNIX_FD))
@@ -161,6 +158,12 @@ bus_dispatch_matches (BusTransaction *transaction,
                           "to a client that doesn't support that.");
           return FALSE;
       }
+
+      if (!bus_context_check_security_policy (context, transaction,
+                                              sender, addressed_recipient,
+                                              addressed_recipient,
+                                              message, NULL, error))
+        return FALSE;
 
       /* Dispatch the message */
       if (!bus_transaction_send (transaction, sender, addressed_recipient,
